@@ -34,7 +34,11 @@ BASE = dict(
                               dict(el='C', q=5, n=2e17, t=610., v=(0, 0, 0), gn=(0, 0, 0.1), gt=(0, 0, 0))],
                  atomic_data='B', geometry=('box', 0.8, 0.8, 0.8), integrator_step=0.1,
                  models=[('brems',), ('exc', ('C', 5, (8, 7)))]),
-    beam=dict(parent='mid', plasma='p', transform=('c', ('t', 0, 0, -1.5), ('rx', 3.0)), atomic_data='A', energy=60000., power=1e6,
+    pm_pool=[('exc', ('C', 5, (8, 7))), ('rec', ('C', 5, (8, 7))), ('tcx', ('C', 5, (8, 7))), ('brems',), ('trp', 'C', 5)],
+    bm_pool=[('bcx', ('C', 5, (8, 7))), ('bem', ('D', 0, (3, 2)))],
+    beam=dict(parent='mid', plasma='p', transform=('c', ('t', 0, 0, -1.5), ('rx', 3.0)), atomic_data='A',
+              att_ref=None, att_pool=[dict(step=0.05, clamp_to_zero=True, clamp_sigma=4.0), dict(step=0.03, clamp_to_zero=True, clamp_sigma=3.0),
+                                      dict(step=0.11, clamp_to_zero=False, clamp_sigma=5.0)], energy=60000., power=1e6,
               temperature=10., element='D', sigma=0.05, divergence_x=0.5, divergence_y=0.5, length=3.0,
               attenuator=dict(step=0.05, clamp_to_zero=True, clamp_sigma=4.0), integrator_step=0.05,
               models=[('bcx', ('C', 5, (8, 7))), ('bem', ('D', 0, (3, 2)))]),
@@ -76,7 +80,7 @@ NOARG = ('beam.plasma', 'laser.plasma', 'laser.laser_profile(same-object)', 'las
          'beam.attenuator(same-object)', 'plasma.atomic_data(same-object)')
 
 
-ALWAYS_PAIRED = NOARG + ('beam.plasma(switch)', 'laser.plasma(switch)')
+ALWAYS_PAIRED = NOARG + ('beam.plasma(switch)', 'laser.plasma(switch)', 'beam.attenuator(pool-object)')
 
 
 def _other(rng, pool, cur):
@@ -174,13 +178,36 @@ def mutators(S):
         lambda L, v: setattr(L.plasma2, 'atomic_data', L.data[v]), setc(Q, 'atomic_data'))
     reg('plasma2.transform', lambda r, c: _other(r, [('t', 0.0, 0.0, -2.6), ('t', 0.05, 0.0, -2.7), ('c', ('t', 0.0, 0.0, -2.6), ('rz', 15.0))], c[Q]['transform']),
         lambda L, v: setattr(L.plasma2, 'transform', S.mat(v)), setc(Q, 'transform'))
+    def _att_fresh_upd(cfg, v):
+        cfg[B]['attenuator'] = v
+        cfg[B]['att_ref'] = None
+
+    def _att_inplace_upd(field):
+        def f(cfg, v):
+            cfg[B]['attenuator'][field] = v
+            if cfg[B].get('att_ref') is not None:          # the installed attenuator is a pool object: it keeps the change
+                cfg[B]['att_pool'][cfg[B]['att_ref']][field] = v
+        return f
     reg('beam.attenuator', lambda r, c: dict(step=_other(r, [0.05, 0.03, 0.11], c[B]['attenuator']['step']),
                                              clamp_to_zero=r.random() < 0.7, clamp_sigma=r.choice([3.0, 4.0, 5.0])),
-        lambda L, v: setattr(L.beam, 'attenuator', S.attenuator(v)), setc(B, 'attenuator'))
+        lambda L, v: setattr(L.beam, 'attenuator', S.attenuator(v)), _att_fresh_upd)
     reg('beam.attenuator.step', lambda r, c: _other(r, [0.05, 0.03, 0.11, 0.2], c[B]['attenuator']['step']),
-        lambda L, v: setattr(L.beam.attenuator, 'step', v), setc(B, 'attenuator', 'step'))
+        lambda L, v: setattr(L.beam.attenuator, 'step', v), _att_inplace_upd('step'))
     reg('beam.attenuator.clamp_sigma', lambda r, c: _other(r, [2.0, 3.0, 4.0, 5.0], c[B]['attenuator']['clamp_sigma']),
-        lambda L, v: setattr(L.beam.attenuator, 'clamp_sigma', v), setc(B, 'attenuator', 'clamp_sigma'))
+        lambda L, v: setattr(L.beam.attenuator, 'clamp_sigma', v), _att_inplace_upd('clamp_sigma'))
+
+    # persistent objects: swapped out and later swapped back (the same object returns, with whatever it cached meanwhile)
+    def _att_pool_upd(cfg, v):
+        cfg[B]['attenuator'] = copy.deepcopy(cfg[B]['att_pool'][v])
+        cfg[B]['att_ref'] = v
+    reg('beam.attenuator(pool-object)', lambda r, c: _other(r, [0, 1, 2], c[B].get('att_ref')),
+        lambda L, v: setattr(L.beam, 'attenuator', L.att_pool[v]), _att_pool_upd)
+    reg('plasma.models(pool-objects)', lambda r, c: sorted(r.sample(range(5), r.randint(1, 4))),
+        lambda L, v: setattr(L.plasma, 'models', [L.pm_pool[i] for i in v]),
+        lambda cfg, v: cfg[P].__setitem__('models', [cfg['pm_pool'][i] for i in v]))
+    reg('beam.models(pool-objects)', lambda r, c: sorted(r.sample(range(2), r.randint(1, 2))),
+        lambda L, v: setattr(L.beam, 'models', [L.bm_pool[i] for i in v]),
+        lambda cfg, v: cfg[B].__setitem__('models', [cfg['bm_pool'][i] for i in v]))
     reg('beam.models', lambda r, c: _other(r, BMODELS, c[B]['models']),
         lambda L, v: setattr(L.beam, 'models', [S.beam_model(m) for m in v]), setc(B, 'models'))
     reg('beam.models.add', lambda r, c: r.choice([('bcx', ('C', 5, (8, 7))), ('bem', ('D', 0, (3, 2)))]),
@@ -190,8 +217,8 @@ def mutators(S):
         def g(r, c):
             ms = c[B]['models']
             idx = [i for i, m in enumerate(ms) if m[0] == kind]
-            if not idx:
-                return None
+            if not idx or c[B].get('models_pool'):
+                return None                   # (pool model objects keep their line: the pool description stays valid)
             i = idx[0]
             cur = ms[i][1]
             cand = [l for l in pool if (l[0], l[1], tuple(l[2])) != (cur[0], cur[1], tuple(cur[2]))]
@@ -315,6 +342,12 @@ def mutators(S):
     reg('laser.profile.laser_radius', lambda r, c: _other(r, [0.05, 0.08, 0.03], c[La]['profile'][3]) if c[La]['profile'][0] == 'uniform' else None, a, u)
     a, u = prof_set('energy_density', 1)
     reg('laser.profile.energy_density', lambda r, c: _other(r, [1e3, 2e3, 5e2], c[La]['profile'][1]) if c[La]['profile'][0] == 'uniform' else None, a, u)
+    # bookkeeping: are pool model objects attached to the beam?  (set by the pool mutator, cleared by every other replacement)
+    for nm in list(M):
+        if nm.startswith('beam.models') and nm not in ('beam.models.add',):
+            g_, a_, u_ = M[nm]
+            flag = nm == 'beam.models(pool-objects)'
+            M[nm] = (g_, a_, (lambda u_, flag: lambda cfg, v: (u_(cfg, v), cfg[B].__setitem__('models_pool', flag))[0])(u_, flag))
     return M
 
 
@@ -495,7 +528,7 @@ PARAM_NODE = {
     'beam.energy': ['Beam.energy.set'], 'beam.power': ['Beam.power.set'], 'beam.temperature': ['Beam.temperature.set'],
     'beam.sigma': ['Beam.sigma.set'], 'beam.length': ['Beam.length.set'], 'beam.divergence_x': ['Beam.divergence_x.set'],
     'beam.divergence_y': ['Beam.divergence_y.set'], 'beam.element': ['Beam.element.set'],
-    'beam.atomic_data': ['Beam.atomic_data.set'], 'beam.plasma': ['Beam.plasma.set'], 'beam.plasma(switch)': ['Beam.plasma.set'], 'laser.plasma(switch)': ['Laser.plasma.set'], 'beam.attenuator': ['Beam.attenuator.set'],
+    'beam.atomic_data': ['Beam.atomic_data.set'], 'beam.plasma': ['Beam.plasma.set'], 'beam.plasma(switch)': ['Beam.plasma.set'], 'laser.plasma(switch)': ['Laser.plasma.set'], 'beam.attenuator': ['Beam.attenuator.set'], 'beam.attenuator(pool-object)': ['Beam.attenuator.set'], 'plasma.models(pool-objects)': ['Plasma.models.set'], 'beam.models(pool-objects)': ['Beam.models.set'],
     'beam.attenuator.step': ['SingleRayAttenuator.step.set'], 'beam.attenuator.clamp_sigma': ['SingleRayAttenuator.clamp_sigma.set'],
     'beam.models': ['Beam.models.set'], 'beam.models(then-mutate-caller-list)': ['Beam.models.set'],
     'plasma.models(then-mutate-caller-list)': ['Plasma.models.set'], 'plasma.composition(tuple)': ['Plasma.composition.set'], 'plasma.models(generator)': ['Plasma.models.set'], 'beam.models(tuple)': ['Beam.models.set'], 'plasma.composition(then-mutate-caller-list)': ['Plasma.composition.set'], 'beam.models.add': ['beam.ModelManager.add'], 'beam.integrator': ['Beam.integrator.set'],
@@ -511,7 +544,7 @@ ACCESSOR_CACHE = {'exc': 'cache:Models(ExcitationLine)', 'rec': 'cache:Models(Re
                   'lrp': 'cache:Models(TotalRadiatedPower)', 'gaunt': 'cache:Models(Bremsstrahlung)', 'bcx': 'cache:Models(BeamCXLine)',
                   'bem': 'cache:Models(BeamEmissionLine)', 'stop': 'cache:Attenuation'}
 # mutators after which some model kinds are no longer attached (so their caches cannot be seen to refill)
-MODEL_SET_CHANGERS = ('plasma.models.clear', 'beam.models.clear', 'plasma.models(generator)', 'beam.models(tuple)', 'plasma.models(then-mutate-caller-list)', 'beam.models(then-mutate-caller-list)', 'plasma.models', 'plasma.models.set', 'plasma.models.add', 'beam.models', 'beam.models.add', 'laser.models')
+MODEL_SET_CHANGERS = ('plasma.models(pool-objects)', 'beam.models(pool-objects)', 'plasma.models.clear', 'beam.models.clear', 'plasma.models(generator)', 'beam.models(tuple)', 'plasma.models(then-mutate-caller-list)', 'beam.models(then-mutate-caller-list)', 'plasma.models', 'plasma.models.set', 'plasma.models.add', 'beam.models', 'beam.models.add', 'laser.models')
 
 
 def _idents(L):
